@@ -105,6 +105,9 @@ def make_scores(case):
     dt = np.dtype(case.get("dtype", "float64"))     # the values are exactly representable in the chosen dtype
     pos = np.array([fl(x) for x in case["pos"]], dtype=float).astype(np.dtype(case.get("dtype_pos", dt)))
     neg = np.array([fl(x) for x in case["neg"]], dtype=float).astype(np.dtype(case.get("dtype_neg", dt)))
+    # the arrays are handed over in a shuffled order (the constructor sorts them; is_sorted is left at its default)
+    rs_ = np.random.RandomState(len(pos) * 131 + len(neg))
+    pos, neg = pos[rs_.permutation(len(pos))], neg[rs_.permutation(len(neg))]
     if case.get("cls") == "fraud":
         # the same data as the subclass FraudScores (scores in [0,1], equal_class fixed to 'pos'): every threshold-setting
         # property of Scores is inherited
@@ -138,10 +141,20 @@ def run_thresholds(case):
             getattr(s, "threshold_at_" + w)(np.array([0.0, 0.4, 1.0]))
         except ValueError:
             pass    # empty class for that metric
-    thr = np.asarray(getattr(s, "threshold_at_" + case["metric"])(targets, method=case["method"]), dtype=float)
+    thr_ret = getattr(s, "threshold_at_" + case["metric"])(targets, method=case["method"])
+    thr = np.array(thr_ret, dtype=float, copy=True)
+    # the returned array belongs to the caller: later threshold calls (same target shape, other metric / method) leave it alone
+    aliased = False
+    if isinstance(thr_ret, np.ndarray) and thr_ret.size:
+        for other_m in ("fnr", "tpr", "tonr"):
+            try:
+                getattr(s, "threshold_at_" + other_m)(np.clip(targets * 0.5 + 0.2, 0, 1), method="lower")
+            except ValueError:
+                pass
+        aliased = not bool(np.array_equal(np.asarray(thr_ret, dtype=float), thr, equal_nan=True))
     t = float(tau(case))
     met = getattr(s, case["metric"])
-    out = {"thr": [enc(float(x)) for x in thr],
+    out = {"result_overwritten": aliased, "thr": [enc(float(x)) for x in thr],
            "at": [enc(float(x)) for x in np.atleast_1d(met(thr))],
            "below": [enc(float(x)) for x in np.atleast_1d(met(thr - t))],
            "above": [enc(float(x)) for x in np.atleast_1d(met(thr + t))]}
